@@ -135,6 +135,17 @@ CHECKS["C19"] = dict(
     ref="§5.C19", note="Rendering by man/groff cannot be executed here; only the line-level roff grammar is modelled.",
     technique="TLA+ spec (Roff.tla) model-checked with TLC; TLC-generated cases rendered by the real clap_mangen and compared line class by line class; divergent pages judged by a TLA+ trace spec")
 
+CHECKS["C16"] = dict(
+    text=("GenTree.tla gives the command tree as the generators see it after build (help/version flags, the expanded help subcommand tree), "
+          "the set every script must mention per level, and the generated bash function as an automaton transcribed from bash.rs (the "
+          "(parent, word) -> mangled-name table, case arms in generation order, compgen prefix filtering) next to the intended function "
+          "(the level addressed by the words before the cursor); TLC checks BashOffers and mangling injectivity for every tree x word "
+          "sequence x partial word within the bound; all six real generators are run twice under catch_unwind (terminate, deterministic, "
+          "mentions), the bash script is checked with bash -n and its function is executed in a real bash for every enumerated query, and "
+          "each reply is compared with the transcribed automaton (conformance) and with the intended level (property) by Trace_Gen.tla."),
+    ref="§5.C16", note="zsh, fish, PowerShell, elvish and nushell are not installed: their scripts are only checked for termination, determinism and mentions. Seven recorded witness classes (known_findings.json).",
+    technique="TLA+ spec (GenTree.tla incl. the bash function as an automaton) model-checked with TLC; TLC-generated queries executed in a real bash against the generated script; replies judged by a TLA+ trace spec")
+
 NOT_YET = "check not built yet in this round (specification module planned in DESIGN.md §4/§5); not claimed until its check exists"
 
 
